@@ -1,15 +1,16 @@
 package props
 
 import (
-	"github.com/form3tech-oss/f1/v2/pkg/f1"
-	"github.com/prometheus/client_golang/prometheus"
-	"os"
-	"log/slog"
-	"io"
-	"strings"
 	"context"
 	"fmt"
+	"github.com/form3tech-oss/f1/v2/pkg/f1"
+	f1metrics "github.com/form3tech-oss/f1/v2/pkg/f1/metrics"
+	"github.com/prometheus/client_golang/prometheus"
+	"io"
+	"log/slog"
+	"os"
 	"sort"
+	"strings"
 	"sync"
 	"sync/atomic"
 	"time"
@@ -120,8 +121,10 @@ func init() {
 			}
 			// the public API: static labels and a logger given to one f1 instance in either order, a real command
 			// line, the process-wide registry (one fresh process per case: that registry is built once)
-			for i := 0; i < 4; i++ {
-				cse := core.MkCase("C16", "cli", i, seed, map[string]int{"order": i % 2, "fail": i / 2})
+			for i := 0; i < 8; i++ {
+				// from the fifth on: no push gateway (the setup series is still recorded and labelled), or the program looks at
+				// the metrics (pkg/f1/metrics GetMetrics) before its first command line
+				cse := core.MkCase("C16", "cli", i, seed, map[string]int{"order": i % 2, "fail": i / 2 % 2, "nogw": []int{0, 0, 0, 0, 1, 1, 0, 1}[i], "early": []int{0, 0, 0, 0, 0, 0, 1, 1}[i]})
 				cse.Solo = true
 				cse.TimeoutMS = 60000
 				cs = append(cs, cse)
@@ -140,10 +143,15 @@ func c16CLI(c *core.Case, o *core.Outcome) {
 	var pp map[string]int
 	c.Params(&pp)
 	labels := map[string]string{"team": "payments", "env": " staging", "Build_42": "ünïcödé ✓"}
-	gw := engine.NewGateway(200)
-	defer gw.Close()
-	os.Setenv("PROMETHEUS_PUSH_GATEWAY", gw.URL())
-	defer os.Unsetenv("PROMETHEUS_PUSH_GATEWAY")
+	if pp["nogw"] == 0 {
+		gw := engine.NewGateway(200)
+		defer gw.Close()
+		os.Setenv("PROMETHEUS_PUSH_GATEWAY", gw.URL())
+		defer os.Unsetenv("PROMETHEUS_PUSH_GATEWAY")
+	}
+	if pp["early"] == 1 {
+		_ = f1metrics.GetMetrics()
+	}
 	quiet := slog.New(slog.NewTextHandler(io.Discard, nil))
 	inst := f1.New()
 	if pp["order"] == 0 {
@@ -160,7 +168,7 @@ func c16CLI(c *core.Case, o *core.Outcome) {
 		}
 	})
 	err := inst.ExecuteWithArgs([]string{"run", "users", "-c", "2", "-i", "6", "-d", "30s", "--max-failures", "10", "cliScenario"})
-	desc := fmt.Sprintf("order=%d fail=%d labels=%v", pp["order"], pp["fail"], labels)
+	desc := fmt.Sprintf("order=%d fail=%d no-gateway=%d metrics-looked-at-first=%d labels=%v", pp["order"], pp["fail"], pp["nogw"], pp["early"], labels)
 	if err != nil {
 		o.Violate("cli-run:"+desc, "the run returned %v (%s)", err, desc)
 		return
@@ -198,13 +206,18 @@ func c16CLI(c *core.Case, o *core.Outcome) {
 			}
 		}
 	}
-	if seen < 2 || samples != 6 {
+	if pp["nogw"] == 1 {
+		if seen < 1 {
+			o.Violate("cli-series:"+desc, "expected the setup series in the process-wide registry; saw none (%s)", desc)
+			return
+		}
+	} else if seen < 2 || samples != 6 {
 		o.Violate("cli-series:"+desc, "expected a setup series and iteration series with 6 samples in the process-wide registry; saw %d series and %d iteration samples (%s)", seen, samples, desc)
 		return
 	}
 	o.Events += int64(seen) + n.Load()
 	o.AddObs("runs_checked", 1)
-	o.Sig("cli:order=%d:fail=%d", pp["order"], pp["fail"])
+	o.Sig("cli:order=%d:fail=%d:nogw=%d:early=%d", pp["order"], pp["fail"], pp["nogw"], pp["early"])
 }
 
 func c16Runs(c *core.Case, o *core.Outcome) {
